@@ -324,7 +324,7 @@ func runOnce(t *testing.T, sc *Scenario, sched detsim.SchedConfig, record bool, 
 			return simprom.Fault{Mode: simprom.ModeOK}
 		}
 		srv.Start(nw, nil)
-		prom := promapi.NewPrometheus("sim", "http://prom0:9090", "", nil, 30*time.Second, sc.Concurrency, 100000, nil)
+		prom := promapi.NewPrometheus("sim", "http://prom0:9090", "", nil, 30*time.Second, sc.Concurrency, 2000000000, nil)
 		fg := promapi.NewFailoverGroup("sim", "http://prom0:9090", []*promapi.Prometheus{prom}, true, "up", nil, nil, nil)
 		reg := prometheus.NewRegistry()
 		s.Start()
